@@ -10,7 +10,7 @@ from mc import engine, alpha, ref, compare
 from mc.engine import Acc
 
 LEVEL = 'exploration'
-RULE = ('full product: (a) every contiguous chain length 5..40 (quick) / 5..120 (thorough) x 5 data shapes (white, AR(1), constant, alternating, random walk) x 10 '
+RULE = ('full product: (a) every contiguous chain length 5..40 (quick) / 5..120 and every fifth length up to 400 (thorough) x 5 data shapes (white, AR(1), constant, alternating, random walk) x 10 '
         'analysis-parameter combinations x fft on/off; (b) every layout of the shared alphabet, enlarged x1 and x4, plus '
         'commensurate/non-commensurate replica spacings, multi-ensemble and covariance-input observables x data shape x '
         '(S in {0,1,2,3.5}; tau_exp in {0,2,10} x N_sigma in {0,1,2}) x fft x parameter source {keyword, per-ensemble '
@@ -63,6 +63,9 @@ def build(tier, seed):
     nmax = 40 if tier == 'quick' else 120
     for n in range(5, nmax + 1):
         cases.append({'kind': 'len', 'n': n})
+    if tier == 'thorough':      # beyond 120: every fifth length up to 400 (the pair-enumeration reference is O(n * w_max))
+        for n in range(125, 401, 5):
+            cases.append({'kind': 'len', 'n': n})
     nl = len(all_layouts(tier))
     for i in range(nl):
         for d in DATA:
